@@ -86,4 +86,13 @@ theorem mem_findProviders_result {t : Providers.Table} {now : Int} {c : String} 
     · simp at h
     · exact ⟨l, hl, (List.mem_filter.mp h).1⟩
 
+theorem locHist_append (cfg : Cfg) (s : State) (a b : List Op) (d : List String) :
+    locHist cfg s (a ++ b) = locHist cfg s a ++ locHist cfg (run cfg ⟨s, d⟩ a).s b := by
+  induction a generalizing s d with
+  | nil => rfl
+  | cons op ops ih =>
+    simp only [List.cons_append, locHist, run, List.foldl_cons, List.append_assoc]
+    rw [ih (step cfg s op) (exec cfg ⟨s, d⟩ op).drained]
+    rfl
+
 end EphVerif.Sys
